@@ -3,7 +3,7 @@ import PkVerif.Model.StatGate
 import PkVerif.Gen.C13
 /-! `pkmodel-c13`: C01's storage configurations with every leaf behind a failure schedule.
 
-    cfg <prefix expression>     as C01, plus   faulty <sched> <cfg>   (sched: a word over n/b/a, or -)
+    cfg <prefix expression>     as C01 (incl. shardN / replicaN), plus   faulty <sched> <cfg>   (sched: a word over n/b/a, or -)
     recv k v | fetch k | stat k | rm k | enum after limit          (stat and rm: exactly one ref)
     pending                     per `faulty` node, in tree order: schedule entries not yet consumed
     gatestat cap n fail         gate slots one call of StatBlobsParallelHelper leaves taken
@@ -17,6 +17,13 @@ def parseSched (w : String) : Option (List Fault) :=
     if c == 'n' then some Fault.none else if c == 'b' then some Fault.before
     else if c == 'a' then some Fault.after else none)
 
+mutual
+partial def parseKids : Nat → List String → Option (List Cfg × List String)
+  | 0, r => some ([], r)
+  | n + 1, r =>
+    match parseCfg r with
+    | some (c, r1) => (parseKids n r1).map (fun (cs, r2) => (c :: cs, r2))
+    | none => none
 partial def parseCfg : List String → Option (Cfg × List String)
   | "mem" :: r => some (.mem, r)
   | "memcache" :: n :: r => n.toNat?.map (fun m => (.memCache m, r))
@@ -45,7 +52,26 @@ partial def parseCfg : List String → Option (Cfg × List String)
     match parseCfg r with
     | some (a, r1) => (parseCfg r1).map (fun (b, r2) => (.cond2 a b, r2))
     | none => none
+  | "shardN" :: n :: r =>
+    match n.toNat? with
+    | some m =>
+      if 1 ≤ m ∧ m ≤ 16 then
+        match parseKids m r with
+        | some (k :: ks, r1) => some (Cfg.shardNest sum32 m 0 k ks, r1)
+        | _ => none
+      else none
+    | none => none
+  | "replicaN" :: n :: r =>
+    match n.toNat? with
+    | some m =>
+      if 1 ≤ m ∧ m ≤ 16 then
+        match parseKids m r with
+        | some (k :: ks, r1) => some (Cfg.replicaNest k ks, r1)
+        | _ => none
+      else none
+    | none => none
   | _ => none
+end
 
 /-- remaining schedule length of every `faulty` node, in tree order -/
 def pendings : (c : Cfg) → (interp route isSchema c).σ → List Nat
@@ -55,6 +81,7 @@ def pendings : (c : Cfg) → (interp route isSchema c).σ → List Nat
   | .proxy o c _, s => pendings o s.1 ++ pendings c s.2.1
   | .overlay l u, s => pendings l s.1 ++ pendings u s.2.1
   | .shard2 a b, s => pendings a s.1 ++ pendings b s.2
+  | .shardBy _ a b, s => pendings a s.1 ++ pendings b s.2
   | .replica2 a b, s => pendings a s.1 ++ pendings b s.2
   | .cond2 t e, s => pendings t s.1 ++ pendings e s.2
   | .faulty _ c, s => s.2.length :: pendings c s.1
